@@ -1,101 +1,38 @@
 (* Model runner: reads one case per line on stdin, prints one observation line
-   per case on stdout, in exactly the format of the Rust harness. Trusted glue. *)
+   per case on stdout, in exactly the format of the Rust harness. Trusted glue.
+   Components live in c_*.ml; each exports `dispatch : string list -> string option`. *)
 open Model
 open Zutil
-
-let split s = List.filter (fun t -> t <> "") (String.split_on_char ' ' s)
-
-let run_seqnr toks =
-  (* seqnr <new> <old> <tol> *)
-  match toks with
-  | [a; b; t] ->
-    string_of_z (seq_nr_offset (z_of_string a) (z_of_string b) (z_of_string t))
-  | _ -> failwith "seqnr: bad case"
-
-(* seqnr_row <old> <tol> : all 65536 values of new *)
-let run_seqnr_row toks =
-  match toks with
-  | [b; t] ->
-    let old = z_of_string b and tol = z_of_string t in
-    let buf = Buffer.create (65536 * 7) in
-    for n = 0 to 65535 do
-      if n > 0 then Buffer.add_char buf ',';
-      Buffer.add_string buf (string_of_z (seq_nr_offset (z_of_int n) old tol))
-    done;
-    Buffer.contents buf
-  | _ -> failwith "seqnr_row: bad case"
-
-let run_rtte toks =
-  let ops = List.map (fun t ->
-      if t = "t" then OpTimeout
-      else if String.length t > 1 && t.[0] = 's' then
-        OpSample (z_of_string (String.sub t 1 (String.length t - 1)))
-      else failwith ("rtte: bad op " ^ t)) toks in
-  let tr = rtte_trace rtte_default ops in
-  String.concat " " (List.map (function
-      | Some (rto, rtt) -> string_of_z rto ^ "," ^ string_of_z rtt
-      | None -> "PANIC") tr)
-
-let parse_rtte_ops toks = List.map (fun t ->
-      if t = "t" then OpTimeout
-      else OpSample (z_of_string (String.sub t 1 (String.length t - 1)))) toks
-
-let rec split_bar acc = function
-  | [] -> (List.rev acc, [])
-  | "|" :: r -> (List.rev acc, r)
-  | x :: r -> split_bar (x :: acc) r
-
-(* rtte_pred <ops> | <observations>  : the extracted c16_ok on an observed trace *)
-let run_rtte_pred toks =
-  let (ops, obs) = split_bar [] toks in
-  let obs = List.map (fun t ->
-      if t = "PANIC" then None else
-      match String.split_on_char ',' t with
-      | [a; b] -> Some (z_of_string a, z_of_string b)
-      | _ -> failwith "rtte_pred: bad obs") obs in
-  if c16_ok (parse_rtte_ops ops) obs then "OK" else "FAIL c16_ok"
-
-(* seqnr_pred <new> <old> <tol> <res> *)
-let run_seqnr_pred toks =
-  match List.map z_of_string toks with
-  | [a; b; t; r] -> if c09_obs_ok a b t r then "OK" else "FAIL c09_obs_ok"
-  | _ -> failwith "seqnr_pred"
-
-(* seqnr_row_pred <old> <tol> | r0,r1,...,r65535 *)
-let run_seqnr_row_pred toks =
-  match toks with
-  | [b; t; "|"; row] ->
-    let old = z_of_string b and tol = z_of_string t in
-    let rs = String.split_on_char ',' row in
-    let bad = ref None in
-    List.iteri (fun n r ->
-        if !bad = None && not (c09_obs_ok (z_of_int n) old tol (z_of_string r)) then bad := Some n) rs;
-    if List.length rs <> 65536 then "FAIL row length"
-    else (match !bad with None -> "OK" | Some n -> Printf.sprintf "FAIL c09_obs_ok new=%d" n)
-  | _ -> failwith "seqnr_row_pred"
 
 let run_consts _ =
   Printf.sprintf "WRAP_TOLERANCE=%s RTTE_MIN_RTO=%s RTTE_MAX_RTO=%s CLOCK_GRANULARITY=%s RTTE_INITIAL_RTT=%s"
     (string_of_z wRAP_TOLERANCE) (string_of_z rTTE_MIN_RTO) (string_of_z rTTE_MAX_RTO)
     (string_of_z cLOCK_GRANULARITY) (string_of_z rTTE_INITIAL_RTT)
 
+
+let dispatchers : (string list -> string option) list = [
+  C_seqnr.dispatch;
+  C_rtte.dispatch;
+]
+
 let dispatch line =
   match split line with
   | [] -> ""
-  | "seqnr" :: r -> run_seqnr r
-  | "seqnr_row" :: r -> run_seqnr_row r
-  | "rtte" :: r -> run_rtte r
-  | "rtte_pred" :: r -> run_rtte_pred r
-  | "seqnr_pred" :: r -> run_seqnr_pred r
-  | "seqnr_row_pred" :: r -> run_seqnr_row_pred r
   | "consts" :: r -> run_consts r
-  | c :: _ -> failwith ("unknown component " ^ c)
+  | toks ->
+    let rec go = function
+      | [] -> failwith ("unknown component " ^ List.hd toks)
+      | d :: ds -> (match d toks with Some s -> s | None -> go ds)
+    in go dispatchers
 
 let () =
   try
     while true do
       let line = input_line stdin in
-      let out = try dispatch line with Failure m -> "MODEL-ERROR " ^ m in
+      let out = try dispatch line with
+        | Failure m -> "MODEL-ERROR " ^ m
+        | Not_found -> "MODEL-ERROR Not_found"
+        | Invalid_argument m -> "MODEL-ERROR " ^ m in
       print_string out;
       print_char '\n'
     done
